@@ -255,11 +255,13 @@ def report(prop, hname, tier, seed, agg, t0, bounds, extra_cov=None, assumptions
             new.append(c)
     stale = [fp for fp in known if fp not in agg["confirmed"]]
     code = 0
-    for c in new:
+    for c in new[:40]:
         path = write_replay(prop, hname, c)
         print(f"VIOLATION property={prop} replay={path}")
         print(f"  what: {c['what']}  [{c['fingerprint']}]" + ("  (listed as fixed: it has returned)" if c["fingerprint"] in fixed else ""))
         code = 1
+    if len(new) > 40:
+        print(f"  ... and {len(new) - 40} further distinct violation fingerprints (listed in the evidence file)")
     inconclusive = []
     if agg["errors"]:
         inconclusive.append(f"{len(agg['errors'])} chunk(s) crashed: {agg['errors'][0]['error']}")
